@@ -76,6 +76,8 @@ def nonnull_on_path(conds, key):
     for c, tk in conds:
         if c == key:
             return tk
+        if c == '!(%s)' % key:
+            return not tk
         if c in ('(%s == null)' % key, '(null == %s)' % key, '(%s == 0)' % key, '(0 == %s)' % key):
             return not tk
         if c in ('(%s != null)' % key, '(null != %s)' % key):
